@@ -150,6 +150,16 @@ def trees():
     yield R(0, 5, ref=R(2, 9), nexts=[R(0, 2)])
     yield R(0, 5, ref=R(1, 9, ref=R(3, 9)), alts=[R(0, 7)], nexts=[R(4, 6)])
     yield R(0, 4, nexts=[R(0, 9, ref=R(2, 9))])
+    # also-if chains of two, next rules inside refinements / alternatives, mixed chains
+    yield R(0, 5, nexts=[R(1, 3), R(2, 6)])
+    yield R(0, 6, nexts=[R(0, 3), R(0, 3)])
+    yield R(0, 5, ref=R(2, 9, nexts=[R(3, 9)]))
+    yield R(0, 6, ref=R(1, 9, nexts=[R(2, 5), R(4, 9)]))
+    yield R(0, 3, alts=[R(0, 6, nexts=[R(4, 9)])])
+    yield R(0, 3, nexts=[R(1, 5)], alts=[R(0, 6)])
+    yield R(0, 3, alts=[R(2, 6)], nexts=[R(1, 5), R(5, 7)])
+    yield R(0, 6, ref=R(2, 9, alts=[R(1, 9)], nexts=[R(3, 5)]))     # (a next rule that fires where its refinement chain does not is ambiguous: not generated)
+    yield R(0, 7, nexts=[R(0, 4, ref=R(2, 9), nexts=[R(1, 3)])])
     if a_.tier == "thorough":
         for l1, l2, l3 in itertools.product(range(0, 4), repeat=3):
             yield R(0, 5, ref=R(l1, 9, ref=R(l2, 9)), alts=[R(0, 6 + (l3 % 2))])
